@@ -88,7 +88,7 @@ def dump_with_faults(case, d, kill_at):
     TP.os = OSMod()
     try:
         with quiet():
-            Flow(*[list(r) for r in case['pkg']], DF.dump_to_path(d, format=case['format'])).process()
+            Flow(*[list(r) for r in case['pkg']], DF.dump_to_path(d, format=case['format'], add_filehash_to_path=case.get('hashpath', False))).process()
         return {'ops': ops}
     except Exception as e:
         return {'ops': ops, 'error': type(e).__name__ + ': ' + str(e)[:200]}
@@ -103,6 +103,11 @@ def gen_cases(rng, tier):
     for sh, fmt in shapes:
         pkg = [[{'a': 10 * i + j, 's': 'é%d' % j} for j in range(n)] or [] for i, n in enumerate(sh)]
         cases.append({'kind': 'crash', 'pkg': pkg, 'format': fmt, 'shape': sh, 'chunk': 48})
+    # add_filehash_to_path with resources whose files are byte-identical (same rows, also two empty ones): every
+    # listed file must still exist under its own name
+    for sh, fmt in ([([2, 2], 'csv'), ([0, 0], 'json')] if tier != 'thorough' else [([2, 2], 'csv'), ([0, 0], 'json'), ([3, 3, 3], 'json'), ([1, 2, 1], 'csv')]):
+        pkg = [[{'a': j, 's': 'é%d' % j} for j in range(n)] for n in sh]
+        cases.append({'kind': 'crash', 'pkg': pkg, 'format': fmt, 'shape': sh, 'chunk': 48, 'hashpath': True})
     return cases
 
 
